@@ -16,7 +16,7 @@ use std::ops::{Add, BitAnd, BitOr, BitXor, Div, Mul, Neg, Not, Rem, Shl, Shr, Su
 use std::ops::{AddAssign, SubAssign};
 
 use crate::gamma;
-use crate::nint::NInt;
+use crate::nint::{hash_bigint, NInt};
 
 // wow, BigRationals are huge
 #[derive(Debug, Clone)]
@@ -632,37 +632,52 @@ impl NNum {
     }
 }
 
+// Numbers that are equal as dictionary keys must hash equally whatever their type, so every real
+// number is hashed by its exact value: an integral value (also an integral rational or float) as
+// the integer it equals, any other finite value as its numerator and denominator in lowest terms
+// (a finite float is exactly a dyadic rational), infinities by their bits.
+const NAN_HASH: u64 = 0x7FF0000000000001u64; // some nan from wikipedia (not that this matters)
+
+fn consistent_hash_rational<H: Hasher>(r: &BigRational, state: &mut H) {
+    hash_bigint(r.numer(), state);
+    if !r.denom().is_one() {
+        hash_bigint(r.denom(), state);
+    }
+}
+
 fn consistent_hash_f64<H: Hasher>(f: f64, state: &mut H) {
     match to_nint_if_int(f) {
+        // (+/- 0 are handled by this branch)
         Some(s) => NInt::hash(&s, state),
-        None => {
-            if f.is_nan() {
-                // some nan from wikipedia (not that this matters)
-                state.write_u64(0x7FF0000000000001u64)
-            } else {
-                // I *think* this actually obeys the laws...?
-                // (+/- 0 are handled by the bigint branch)
-                f.to_bits().hash(state)
+        None => match BigRational::from_float(f) {
+            Some(r) => consistent_hash_rational(&r, state),
+            None => {
+                if f.is_nan() {
+                    state.write_u64(NAN_HASH)
+                } else {
+                    f.to_bits().hash(state)
+                }
             }
-        }
+        },
     }
 }
 
 impl NNum {
     pub fn total_hash<H: Hasher>(&self, state: &mut H) {
+        if self.is_nan() {
+            // total_eq considers all NaNs equal, including complex numbers with a NaN part
+            return state.write_u64(NAN_HASH);
+        }
         match self {
             NNum::Int(a) => NInt::hash(&a, state),
-            NNum::Rational(r) => {
-                // TODO: should we make rationals consistent with floats?
-                BigInt::hash(r.numer(), state);
-                if !r.denom().is_one() {
-                    BigInt::hash(r.denom(), state);
-                }
-            }
+            NNum::Rational(r) => consistent_hash_rational(r, state),
             NNum::Float(f) => consistent_hash_f64(*f, state),
             NNum::Complex(z) => {
                 consistent_hash_f64(z.re, state);
-                consistent_hash_f64(z.im, state);
+                // a complex number with zero imaginary part equals its real part
+                if z.im != 0.0 {
+                    consistent_hash_f64(z.im, state);
+                }
             }
         }
     }
